@@ -78,15 +78,23 @@ def spectrum_mask(ny, nx, my, mx):
     return oky[:, None] & okx[None, :]
 
 
-def surface_scales(setup, q0, **kw):
-    """(max|conc|, max|flx|) at the surface level of the same problem.
+def amp_scales(setup, q0, footprint=False, **_ignored):
+    """(concentration scale, flux scale) of a problem, independent of truncation, re-centring, cropping and output level.
 
-    The rounding error of linear shooting is ~eps*e^G relative to the *surface* amplitude of a mode, not to the (possibly
-    much smaller) field at an upper level, so identity residuals are normalised by at least these."""
-    kw = dict(kw)
-    kw.pop("srf_bg_conc", None)
-    _, c, f = solve(setup, q0, 0, **kw)
-    return float(np.max(np.abs(c))), float(np.max(np.abs(f)))
+    The rounding error of linear shooting is ~eps*e^G relative to the *surface* amplitude of a mode, not to the (possibly much
+    smaller, truncated-away or cropped-away) field that comes out, so identity residuals are normalised by at least:
+    flux: the source amplitude max|q0| (footprint mode: 1, the weight of the surface delta);
+    concentration: that amplitude times the column resistance sum dz/Kz (the response to a uniform source of the same amplitude)."""
+    z = np.asarray(setup["z"], dtype=float)
+    Kz = np.asarray(setup["profiles"][4], dtype=float)
+    R = float(np.sum(np.diff(z) * 0.5 * (1.0 / Kz[:-1] + 1.0 / Kz[1:])))
+    A = 1.0 if footprint else float(np.max(np.abs(q0)))
+    return A * R, A
+
+
+# kept for callers that want the actual surface fields
+def surface_scales(setup, q0, **kw):
+    return amp_scales(setup, q0, footprint=bool(kw.get("footprint", False)))
 
 
 def surface_fields(setup, q0, **kw):
